@@ -78,6 +78,7 @@ func c06Case(b *Batch, idx int) {
 	c.Collide = false
 	c.Cfg.UpdateTTL = c06UpdateTTL
 	c.Cfg.Observe = rng.Intn(2) == 0
+	c.Cfg.SliceVals = c.Cfg.Observe && c.Cfg.API == "Failover" && rng.Intn(2) == 0
 	sameValues := rng.Intn(3) == 0 // the data source did not change: builders return what is already cached
 	c.FailPct = []int{0, 0, 30}[rng.Intn(3)]
 	for w := range c.Scripts {
@@ -316,7 +317,7 @@ func c06Case(b *Batch, idx int) {
 			if string(kb) == string(r.keys[k]) {
 				found = true
 				E = exp.UnixNano()
-				if v != w.Val {
+				if tv, _ := tokOf(v); tv != w.Val {
 					found = false
 				}
 			}
